@@ -8,6 +8,8 @@ import (
 	"os"
 	"path/filepath"
 	"runtime"
+	"runtime/debug"
+	"runtime/pprof"
 	"sort"
 	"strings"
 	"time"
@@ -64,13 +66,25 @@ var (
 	flagTimeLimit = flag.Int("timelimit", 0, "per-entry exploration time limit in seconds (0: registry value or 900)")
 )
 
+var flagProf = flag.String("cpuprofile", "", "write cpu profile")
+
 func main() {
 	flag.Parse()
+	debug.SetGCPercent(600)
+	if *flagProf != "" {
+		f, _ := os.Create(*flagProf)
+		pprof.StartCPUProfile(f)
+		defer pprof.StopCPUProfile()
+	}
 	if *flagProp == "" {
 		fmt.Fprintln(os.Stderr, "usage: gosym -property Cxx [-tier quick|thorough]")
 		os.Exit(2)
 	}
-	os.Exit(runProperty(*flagProp, *flagTier))
+	rc := runProperty(*flagProp, *flagTier)
+	if *flagProf != "" {
+		pprof.StopCPUProfile()
+	}
+	os.Exit(rc)
 }
 
 func loadRegistry() Registry {
